@@ -26,6 +26,101 @@ ASSUMPTIONS = ["documented parameter ranges: min_seqlet_len >= 2 (property scope
 S = "seqlet"
 
 
+def central_window_rule(tf, role):
+    """engine version: with end = start + window_size + 2*flank (the spans _iterative_extract_seqlets returns), the summed slice
+    X_attr[example, a:b] must be a = start + flank, b = a + window_size for every window size and flank (floor-division axioms).
+    -> Result, or None when the statement shapes are outside what the linear engine can read (the spelling rule then decides)"""
+    import copy
+    from ..rules import inline_locals
+    from ..affine import decide, Lin, ge, le
+    loops = [n for n in walk_no_nested(tf.node) if isinstance(n, ast.For) and isinstance(n.target, ast.Tuple) and len(n.target.elts) == 3
+             and unparse(n.iter) == "seqlets"]
+    if len(loops) != 1:
+        return None
+    lp = loops[0]
+    names = [e.id for e in lp.target.elts if isinstance(e, ast.Name)]
+    if len(names) != 3:
+        return None
+    _, sv, ev = names
+    sums = [n for n in walk_no_nested(lp) if isinstance(n, ast.Subscript) and unparse(n.value) == "X_attr" and isinstance(n.slice, ast.Tuple)
+            and len(n.slice.elts) == 2 and isinstance(n.slice.elts[1], ast.Slice)]
+    if len(sums) != 1 or sums[0].slice.elts[1].lower is None or sums[0].slice.elts[1].upper is None:
+        return None
+    sl = sums[0].slice.elts[1]
+
+    class _Half(ast.NodeTransformer):
+        # int(0.5 * E) == E // 2 for E >= 0
+        def visit_Call(self, n):
+            self.generic_visit(n)
+            if isinstance(n.func, ast.Name) and n.func.id == "int" and len(n.args) == 1 and isinstance(n.args[0], ast.BinOp) \
+                    and isinstance(n.args[0].op, ast.Mult):
+                a, b = n.args[0].left, n.args[0].right
+                if const_value(a) == 0.5:
+                    return ast.BinOp(left=b, op=ast.FloorDiv(), right=ast.Constant(value=2))
+                if const_value(b) == 0.5:
+                    return ast.BinOp(left=a, op=ast.FloorDiv(), right=ast.Constant(value=2))
+            return n
+
+    def expand(e, depth=4):
+        e = copy.deepcopy(e)
+        for _ in range(depth):
+            class _I(ast.NodeTransformer):
+                def visit_Name(self, n):
+                    if n.id in (sv, ev) or n.id in tf.params:
+                        return n
+                    d = _local_def(tf, lp, n.id)
+                    return copy.deepcopy(d) if d is not None else n
+            e = _I().visit(e)
+        return ast.fix_missing_locations(_Half().visit(e))
+    lo_e, hi_e = expand(sl.lower), expand(sl.upper)
+    ai = AbsInt(tf, int_params={"window_size", "flank"}, nonneg_params=("flank",))
+    anchor = [s_ for s_ in lp.body if any(x is sums[0] for x in ast.walk(s_))]
+    sts = ai.states_at(anchor[0]) if anchor else []
+    if not sts:
+        return None
+    verdicts = []
+    for st in sts:
+        st = st.copy()
+        S, E = ai.lin(st, ast.Name(id=sv, ctx=ast.Load())), ai.lin(st, ast.Name(id=ev, ctx=ast.Load()))
+        lo, hi = ai.lin(st, lo_e), ai.lin(st, hi_e)
+        if None in (S, E, lo, hi):
+            return None
+        W, F_ = Lin.atom("window_size"), Lin.atom("flank")
+        G = list(st.G) + list(ai.axioms) + [ge(E - S, W + F_ + F_), le(E - S, W + F_ + F_), ge(W, 1), ge(F_, 0)]
+        for label, obl in (("window starts at start + flank", lo - (S + F_)), ("window starts at start + flank (<=)", (S + F_) - lo),
+                           ("window is window_size wide", (hi - lo) - W), ("window is window_size wide (<=)", W - (hi - lo))):
+            r = decide(G, obl)
+            verdicts.append((label, r[0], r[1] if len(r) > 1 else None))
+    bad = [v for v in verdicts if v[1] == "REFUTED"]
+    unk = [v for v in verdicts if v[1] not in ("PROVED", "REFUTED", "BOUNDED")]
+    n_b = sum(1 for v in verdicts if v[1] == "BOUNDED")
+    if bad:
+        w = {k: v for k, v in (bad[0][2] or {}).items() if k in ("window_size", "flank") or "//" in k} if isinstance(bad[0][2], dict) else {}
+        return violation("TFM", tf, role, "`X_attr[.., %s:%s]` is not the central window for every window size: %s fails, e.g. %s" % (
+            unparse(sl.lower), unparse(sl.upper), bad[0][0], w), sums[0], semantic=True, witness={"assignment": w})
+    if unk:
+        return None
+    return holds("TFM", tf, role, "slice [%s, %s) == [start + flank, start + flank + window_size) for every window_size, flank (%d obligations proved, %d model-free in scope [-3, 8])" % (
+        unparse(sl.lower), unparse(sl.upper), len(verdicts) - n_b, n_b), sums[0])
+
+
+def _local_def(tf, lp, name):
+    """the single definition of a local inside the seqlet loop or the function body (None when rebound)"""
+    defs = []
+    for s_ in walk_no_nested(tf.node):
+        if isinstance(s_, ast.Assign):
+            for t in s_.targets:
+                if isinstance(t, ast.Name) and t.id == name:
+                    defs.append(s_.value)
+                elif isinstance(t, ast.Tuple) and isinstance(s_.value, ast.Tuple) and len(t.elts) == len(s_.value.elts):
+                    for a, b in zip(t.elts, s_.value.elts):
+                        if isinstance(a, ast.Name) and a.id == name:
+                            defs.append(b)
+        elif isinstance(s_, ast.AugAssign) and isinstance(s_.target, ast.Name) and s_.target.id == name:
+            return None
+    return defs[0] if len(defs) == 1 else None
+
+
 def run(repo, tier):
     out = []
     out += recursive_rules(repo)
@@ -324,18 +419,23 @@ def tfmodisco_rules(repo):
         out.append(holds("R-SLICE0", tf, role, "both edges masked under `%s`" % unparse(g[0].test), g[0]))
     role = "reported attribution is the input summed over the central window of the span"
     src = {unparse(s.targets[0]): unparse(s.value) for s in walk_no_nested(tf.node) if isinstance(s, ast.Assign) and len(s.targets) == 1}
-    ok = src.get("attr_flank") == "int(0.5 * (end - start - window_size))" and \
-        (src.get("(attr_start, attr_end)") == "(start + attr_flank, end - attr_flank)" or
-         (src.get("attr_start") == "start + attr_flank" and src.get("attr_end") == "end - attr_flank")) and \
-        src.get("attr") == "X_attr[example_id, attr_start:attr_end].sum(dim=-1).item()"
-    if ok:
-        out.append(holds("TFM", tf, role, src.get("attr"), tf.node))
-    elif src.get("attr", "").startswith("X_attr[example_id, start:end]"):
-        out.append(violation("TFM", tf, role, "sum runs over the whole span including the flanks: `%s`" % src.get("attr"), tf.node))
-    elif src.get("attr", "").startswith("X_sum["):
-        out.append(unrecognised("TFM", tf, role, src.get("attr")))
+    eng = central_window_rule(tf, role)
+    if eng is not None:
+        out.append(eng)
     else:
-        out.append(unrecognised("TFM", tf, role, "%s | %s | %s" % (src.get("attr_flank"), src.get("(attr_start, attr_end)"), src.get("attr"))))
+        src = {unparse(s.targets[0]): unparse(s.value) for s in walk_no_nested(tf.node) if isinstance(s, ast.Assign) and len(s.targets) == 1}
+        ok = src.get("attr_flank") == "int(0.5 * (end - start - window_size))" and \
+            (src.get("(attr_start, attr_end)") == "(start + attr_flank, end - attr_flank)" or
+             (src.get("attr_start") == "start + attr_flank" and src.get("attr_end") == "end - attr_flank")) and \
+            src.get("attr") == "X_attr[example_id, attr_start:attr_end].sum(dim=-1).item()"
+        if ok:
+            out.append(holds("TFM", tf, role, src.get("attr"), tf.node))
+        elif src.get("attr", "").startswith("X_attr[example_id, start:end]"):
+            out.append(violation("TFM", tf, role, "sum runs over the whole span including the flanks: `%s`" % src.get("attr"), tf.node))
+        elif src.get("attr", "").startswith("X_sum["):
+            out.append(unrecognised("TFM", tf, role, src.get("attr")))
+        else:
+            out.append(unrecognised("TFM", tf, role, "%s | %s | %s" % (src.get("attr_flank"), src.get("(attr_start, attr_end)"), src.get("attr"))))
     role = "window sums are computed on a fresh tensor (the caller's attributions are only read)"
     ok = src.get("X_sum") == "X_attr.unfold(-1, window_size, 1).sum(dim=-1)"
     out.append((holds if ok else unrecognised)("TFM", tf, role, src.get("X_sum", "?"), tf.node, nontrivial=False))
